@@ -440,13 +440,14 @@ def replay_states(states, extra):
             if graders is None:
                 graders = scope_graders()
             out['n'] += 1
+            prev, out['prev_hist'] = out.get('prev_hist'), c['hist']
             for i, call in enumerate(c['hist']):
                 obs = scope_call(call, graders)
                 out['evals'] += 1
                 out['keys'].add(('scope', call, st['out'][i]))
                 if obs != st['out'][i]:
                     add_bad(out, {'kind': 'scope', 'hist': c['hist'], 'step': i + 1, 'call': call,
-                                  'allowed': st['out'][i], 'observed': obs,
+                                  'allowed': st['out'][i], 'observed': obs, 'replayed_just_before': prev,
                                   'class': 'negative-power-switch-leaks' if st['out'][i] == 'value' else 'negative-power-not-refused'})
                     break
             continue
@@ -467,6 +468,7 @@ def replay_states(states, extra):
         out['n'] += 1
         replay_case(case, allowed, out)
     out['keys'] = sorted(out['keys'])
+    out.pop('prev_hist', None)
     return out
 
 
